@@ -97,7 +97,17 @@ Inductive cev :=
 | AgeAll (ms : Z) | TickAll
 (* one CheckExpirations while the transport is down (down = true): every session.WriteMessage of a
    retransmitted copy returns an error *)
-| TickAllW (down : bool).
+| TickAllW (down : bool)
+(* Observation.Cancel whose deregistration exchange FAILS (peer silent until the context ends, write
+   error, request refused): cleanUp is Cancel's first statement, so the entry goes whatever becomes of
+   the exchange *)
+| ObCancelErr (id : Z)
+(* limiter at the granularity of its atomic sections: ONE action of one goroutine (e.g. the select of
+   acquireEndpoint taking <-ctx.Done()), and "everybody runs to rest except the goroutines in [hold]"
+   (a cancelled waiter delayed between that select and cancelEndpoint, while a concurrent
+   releaseEndpoint hands its slot to it) *)
+| LmAct (a : L.act)
+| LmSettleHold (hold : list N).
 
 Definition dummy_msg (t : Z) : B.msg :=
   {| B.mcode := 0; B.mtok := t; B.mb1 := None; B.mb2 := None; B.ms1 := None; B.ms2 := None;
@@ -233,6 +243,9 @@ Definition step (c : R.cfg) (s : conn) (e : cev) : conn :=
       let w := fun _ : Z => down in
       with_pg (with_rx s1 {| R.reqs := R.reqs (rx s1); R.pending := tick_w_tbl c w (R.pending (rx s1)) |})
               (tick_w_tbl c w (pg s1))
+  | ObCancelErr id => ostep s (O.ECancelErr (Z.to_nat id))
+  | LmAct a => with_lm s (L.step (lm s) a)
+  | LmSettleHold hold => with_lm s (L.settle_hold SETTLE_FUEL hold (lm s))
   end.
 
 Definition run (c : R.cfg) (s : conn) (evs : list cev) : conn := fold_left (step c) evs s.
